@@ -562,8 +562,17 @@ def parse_tree_to_objgraph(
         """
         line, col = parser.pos_to_linecol(nt.position)
         if isinstance(nt, Terminal):
+            value = nt.value
+            if (
+                metamodel.use_regexp_group
+                and hasattr(nt.rule, "regex")
+                and nt.rule.regex.groups == 1
+            ):
+                # the same as for regex matches used directly in
+                # an assignment (see process_node)
+                value = nt.extra_info.group(1)
             return metamodel.process(
-                nt.value, nt.rule_name, filename=parser.file_name, line=line, col=col
+                value, nt.rule_name, filename=parser.file_name, line=line, col=col
             )
         else:
             # If RHS of assignment is NonTerminal it is a product of
